@@ -847,10 +847,10 @@ def regenerate(ctx):
 
 def run(ctx, replay=None, proofs_ok=True):
     if replay is not None:
-        if "kind" not in replay.get("case", {}):
-            return {"failures": [], "coverage": {"evaluations": 0, "distinct_nontrivial": 0, "rule": "replay of a format obligation",
-                                                  "samples": [replay.get("case")]}}
-        cases = [replay["case"]]
+        # a replay of a format obligation has no input case: the corpus is run instead (regenerate() re-reports the obligation)
+        cases = [replay["case"]] if "kind" in replay.get("case", {}) else []
+        if not cases or not proofs_ok:
+            cases = cases + corpus()
     else:
         cases = corpus() + random_cases(ctx)
     failures, stats = differential(ctx, cases, imports=IMPORTS, impl=impl, expr=expr, judge=judge, shrink=shrink,
